@@ -312,10 +312,8 @@ func hC03Deep(m *ir.Module, f *ir.Func) {
 // hC03Arith, hC03Mem, hC03Terms, hC03Funclets build the four programs; between
 // them they call every instruction and terminator constructor.
 
-//vf:unwind 600
-//vf:steps 200000000
-//vf:shards 16
-func VfC03_DeepArith() {
+// hC03ProgArith builds the program and hands it to after.
+func hC03ProgArith(after func(*ir.Module, *ir.Func)) {
 	m := ir.NewModule()
 	it := types.I32
 	f := m.NewFunc(hLetterIn("fname", 'a', 'e'), types.Void,
@@ -363,13 +361,16 @@ func VfC03_DeepArith() {
 	b.NewAddrSpaceCast(p, as)
 	b.Insts = append(b.Insts, ir.NewInstFreeze(x)) // no builder method exists for freeze
 	b.NewRet(nil)
-	hC03Deep(m, f)
+	after(m, f)
 }
 
 //vf:unwind 600
 //vf:steps 200000000
 //vf:shards 16
-func VfC03_DeepMemory() {
+func VfC03_DeepArith() { hC03ProgArith(hC03Deep) }
+
+// hC03ProgMemory builds the program and hands it to after.
+func hC03ProgMemory(after func(*ir.Module, *ir.Func)) {
 	m := ir.NewModule()
 	it := types.I32
 	callee := m.NewFunc("callee", types.Double, ir.NewParam("a", it))
@@ -415,13 +416,16 @@ func VfC03_DeepMemory() {
 	b.NewPhi(ir.NewIncoming(call, b))
 	b.NewVAArg(va, it)
 	b.NewRet(nil)
-	hC03Deep(m, f)
+	after(m, f)
 }
 
 //vf:unwind 600
 //vf:steps 200000000
 //vf:shards 16
-func VfC03_DeepTerminators() {
+func VfC03_DeepMemory() { hC03ProgMemory(hC03Deep) }
+
+// hC03ProgTerminators builds the program and hands it to after.
+func hC03ProgTerminators(after func(*ir.Module, *ir.Func)) {
 	m := ir.NewModule()
 	it := types.I32
 	callee := m.NewFunc("callee", types.Void)
@@ -441,13 +445,16 @@ func VfC03_DeepTerminators() {
 	pad := lp.NewLandingPad(types.NewStruct(types.I8Ptr, types.I32))
 	pad.Cleanup = true
 	lp.NewResume(pad)
-	hC03Deep(m, f)
+	after(m, f)
 }
 
 //vf:unwind 600
 //vf:steps 200000000
 //vf:shards 16
-func VfC03_DeepFunclets() {
+func VfC03_DeepTerminators() { hC03ProgTerminators(hC03Deep) }
+
+// hC03ProgFunclets builds the program and hands it to after.
+func hC03ProgFunclets(after func(*ir.Module, *ir.Func)) {
 	m := ir.NewModule()
 	callee := m.NewFunc("callee", types.Void)
 	f := m.NewFunc(hLetterIn("fname", 'a', 'e'), types.Void)
@@ -460,8 +467,13 @@ func VfC03_DeepFunclets() {
 	cp.NewCatchRet(pad, ok)
 	cpad := cl.NewCleanupPad(constant.None)
 	cl.NewCleanupRet(cpad, nil)
-	hC03Deep(m, f)
+	after(m, f)
 }
+
+//vf:unwind 600
+//vf:steps 200000000
+//vf:shards 16
+func VfC03_DeepFunclets() { hC03ProgFunclets(hC03Deep) }
 
 // VfC03_DeepModule: module-level entities (global variables, alias, ifunc,
 // declared and defined functions), each one named or unnamed (forked), built
